@@ -1,10 +1,11 @@
 /-
   Props.C10 — snapshots and crashes: the data directory at every step of TakeSnapshot, as a pure
   function of the previous image and the new snapshot, and what a fresh server restores from each.
-  The first and the last image restore a complete snapshot (the previous one, the new one); every
-  image in between restores NOTHING although the previous snapshot directory is intact — the manifest
-  is replaced before the state file it names exists (class `manifest-replaced-before-state` of
-  Known.lean). Helper lemmas live in Lemmas/RestoreLemmas.lean.
+  TakeSnapshot writes the state file first and publishes the manifest by an atomic rename (repaired
+  upstream; before, the manifest was replaced before the state file it named existed and every
+  intermediate image restored nothing). Every image before the rename restores exactly what the previous
+  image restored, every image from the rename on restores the complete new snapshot: the property holds
+  in full (`snapshot_crash_atomic`). Helper lemmas live in Lemmas/RestoreLemmas.lean.
 -/
 import SugarModel.Lemmas.JsonLemmas
 import SugarModel.Spec.Durable
@@ -15,39 +16,73 @@ abbrev fresh : State := { dbs := [], mem := 0 }
 
 /-- the data directory after `step` file operations of a TakeSnapshot that writes snapshot `ms`
     (dataset `ds`, recorded time `ls`) on top of the image `prev`:
-    0 nothing yet · 1 manifest created empty · 2 manifest written (names `ms`) · 3 directory `ms`
-    created · 4 `state.bin` created empty · 5 (and later) `state.bin` written -/
+    0 nothing yet · 1 directory `ms` created (no `state.bin`) · 2 `state.bin` created empty ·
+    3 `state.bin` written (complete) · 4 `manifest.bin.tmp` written next to the old manifest (a file the
+    restore never looks at: the image is that of step 3) · 5 (and later) the rename has replaced the
+    manifest, which now names `ms` -/
 def snapStep (prev : SnapImage) (ms : Nat) (ds : List (Nat × List (Bytes × Entry))) (ls : Int) : Nat → SnapImage
   | 0 => prev
-  | 1 => { manifest := some none, dirs := prev.dirs }
-  | 2 => { manifest := some (some ms), dirs := prev.dirs }
-  | 3 => { manifest := some (some ms), dirs := prev.dirs ++ [⟨ms, none⟩] }
-  | 4 => { manifest := some (some ms), dirs := prev.dirs ++ [⟨ms, some none⟩] }
+  | 1 => { manifest := prev.manifest, dirs := prev.dirs ++ [⟨ms, none⟩] }
+  | 2 => { manifest := prev.manifest, dirs := prev.dirs ++ [⟨ms, some none⟩] }
+  | 3 => { manifest := prev.manifest, dirs := prev.dirs ++ [⟨ms, some (some (ds, ls))⟩] }
+  | 4 => { manifest := prev.manifest, dirs := prev.dirs ++ [⟨ms, some (some (ds, ls))⟩] }
   | _ => { manifest := some (some ms), dirs := prev.dirs ++ [⟨ms, some (some (ds, ls))⟩] }
 
-/-- the new snapshot's name is not the name of an existing snapshot directory (names are unix
-    milliseconds; TakeSnapshot refuses a second snapshot in the same millisecond) -/
-def NewName (prev : SnapImage) (ms : Nat) : Prop := ms ≠ 0 ∧ ∀ d ∈ prev.dirs, d.name ≠ ms
+/-- the new snapshot's name is new: it is not 0, no existing snapshot directory bears it and the
+    current manifest does not name it (names are unix milliseconds; TakeSnapshot refuses a second
+    snapshot in the same millisecond, and a manifest only ever names a snapshot taken earlier) -/
+def NewName (prev : SnapImage) (ms : Nat) : Prop :=
+  ms ≠ 0 ∧ (∀ d ∈ prev.dirs, d.name ≠ ms) ∧ prev.manifest ≠ some (some (ms : Int))
 
 private theorem find_prev_none (prev : SnapImage) (ms : Nat) (h : NewName prev ms) :
     prev.dirs.find? (fun d => (d.name : Int) == (ms : Int)) = none := by
   rw [List.find?_eq_none]
   intro d hd
-  have := h.2 d hd
+  have := h.2.1 d hd
   simp only [beq_iff_eq, Int.natCast_inj]
   exact this
 
 private theorem ms_ne_zero (ms : Nat) (h : ms ≠ 0) : ((ms : Int) == 0) = false := by
   simp only [beq_eq_false_iff_ne, ne_eq, Int.natCast_eq_zero]; exact h
 
-/-- **A crash before the manifest is touched restores the previous snapshot** (step 0) -/
-theorem crash_before_manifest_step_restores_previous (now : Int) (prev : SnapImage) (ms : Nat)
-    (ds : List (Nat × List (Bytes × Entry))) (ls : Int) :
-    restoreSnap now (snapStep prev ms ds ls 0) = restoreSnap now prev := rfl
+/-- a directory entry for a new name, appended while the manifest is untouched, is invisible to the
+    restore: the manifest names something else, and the lookup of that name is not shadowed -/
+private theorem appended_dir_invisible (now : Int) (prev : SnapImage) (ms : Nat)
+    (st : Option (Option (List (Nat × List (Bytes × Entry)) × Int))) (hn : NewName prev ms) :
+    restoreSnap now { manifest := prev.manifest, dirs := prev.dirs ++ [⟨ms, st⟩] } = restoreSnap now prev := by
+  cases hm : prev.manifest with
+  | none => simp [restoreSnap, hm]
+  | some m =>
+    cases m with
+    | none => simp [restoreSnap, hm]
+    | some m0 =>
+      have hne : m0 ≠ (ms : Int) := by
+        intro h; exact hn.2.2 (by rw [hm, h])
+      have hfind : (prev.dirs ++ [(⟨ms, st⟩ : SnapDir)]).find? (fun d => (d.name : Int) == m0) =
+          prev.dirs.find? (fun d => (d.name : Int) == m0) := by
+        rw [List.find?_append]
+        cases prev.dirs.find? (fun d => (d.name : Int) == m0) with
+        | some d => rfl
+        | none =>
+          have : (((ms : Nat) : Int) == m0) = false := by
+            simp only [beq_eq_false_iff_ne, ne_eq]; exact fun h => hne h.symm
+          simp [this]
+      simp only [restoreSnap, hm, hfind]
 
-/-- **A crash after the state file is written restores the new snapshot, complete** (step 5 and
-    every later instant): the restore is the restore of the new dataset, LASTSAVE the new time -/
-theorem crash_after_state_written_restores_new (now : Int) (prev : SnapImage) (ms : Nat)
+/-- **A crash before the rename restores the previous snapshot** (steps 0–4: nothing yet, directory
+    created, state file created, state file written, temporary manifest written): a fresh server
+    restores exactly what it would have restored from the previous image — same keyspace, same LASTSAVE. -/
+theorem crash_before_rename_restores_previous (now : Int) (prev : SnapImage) (ms : Nat)
+    (ds : List (Nat × List (Bytes × Entry))) (ls : Int) (hn : NewName prev ms) (step : Nat) (h4 : step ≤ 4) :
+    restoreSnap now (snapStep prev ms ds ls step) = restoreSnap now prev := by
+  have : step = 0 ∨ step = 1 ∨ step = 2 ∨ step = 3 ∨ step = 4 := by omega
+  rcases this with h | h | h | h | h <;> subst h
+  · rfl
+  all_goals exact appended_dir_invisible now prev ms _ hn
+
+/-- **A crash after the rename restores the new snapshot, complete** (step 5 and every later
+    instant): the restore is the restore of the new dataset, LASTSAVE the new time -/
+theorem crash_after_rename_restores_new (now : Int) (prev : SnapImage) (ms : Nat)
     (ds : List (Nat × List (Bytes × Entry))) (ls : Int) (n : Nat) (hn : NewName prev ms) :
     restoreSnap now (snapStep prev ms ds ls (n + 5)) =
       (match restoreDataset now fresh ds with | none => (.panic, ls) | some s => (.ok s, ls)) := by
@@ -55,75 +90,66 @@ theorem crash_after_state_written_restores_new (now : Int) (prev : SnapImage) (m
     find_prev_none prev ms hn, List.find?_cons, beq_self_eq_true, Option.none_or, Option.bind_some]
   cases restoreDataset now fresh ds <;> rfl
 
-/-- the new snapshot, once complete, is served key by key (distinct indices and keys) -/
+/-- the new snapshot, once published, is served key by key (distinct indices and keys): every entry
+    whose deadline has not passed is served exactly as snapshotted, and LASTSAVE is the recorded time -/
 theorem new_snapshot_served_partial (now : Int) (prev : SnapImage) (ms : Nat)
     (ds : List (Nat × List (Bytes × Entry))) (ls : Int) (n : Nat) (hn : NewName prev ms)
     (hd : (ds.map Prod.fst).Nodup) (hk : ∀ i es, (i, es) ∈ ds → (es.map Prod.fst).Nodup) :
     ∃ s', restoreSnap now (snapStep prev ms ds ls (n + 5)) = (.ok s', ls) ∧
       ∀ i es, (i, es) ∈ ds → ∀ k e, (k, e) ∈ es → e.expired now = false → s'.lookup i k = some e := by
   obtain ⟨s', h0, ha, _, _⟩ := restoreDataset_spec now ds fresh hd hk
-  exact ⟨s', by rw [crash_after_state_written_restores_new now prev ms ds ls n hn, h0], ha⟩
+  exact ⟨s', by rw [crash_after_rename_restores_new now prev ms ds ls n hn, h0], ha⟩
 
-/-- **The manifest window loses the previous snapshot** — the universally quantified statement of the
-    defect: for every previous image (whatever complete snapshot it holds and would restore), every new
-    snapshot name and dataset, a crash after step 1, 2, 3 or 4 leaves a directory from which a fresh
-    server restores nothing at all, LASTSAVE 0. -/
-theorem manifest_window_loses_previous (now : Int) (prev : SnapImage) (ms : Nat)
-    (ds : List (Nat × List (Bytes × Entry))) (ls : Int) (hn : NewName prev ms)
-    (step : Nat) (h1 : 1 ≤ step) (h4 : step ≤ 4) :
-    restoreSnap now (snapStep prev ms ds ls step) = (.ok fresh, 0) := by
-  have : step = 1 ∨ step = 2 ∨ step = 3 ∨ step = 4 := by omega
-  rcases this with h | h | h | h <;> subst h
-  · rfl
-  · simp [snapStep, restoreSnap, ms_ne_zero ms hn.1, find_prev_none prev ms hn]
-  · simp [snapStep, restoreSnap, ms_ne_zero ms hn.1, List.find?_append, find_prev_none prev ms hn]
-  · simp [snapStep, restoreSnap, ms_ne_zero ms hn.1, List.find?_append, find_prev_none prev ms hn]
+/-- every image from the rename on restores the same thing: the image of step 5 -/
+theorem after_rename_all_steps_agree (prev : SnapImage) (ms : Nat)
+    (ds : List (Nat × List (Bytes × Entry))) (ls : Int) (n : Nat) :
+    snapStep prev ms ds ls (n + 5) = snapStep prev ms ds ls 5 := rfl
 
-/-- **In the window the directory restores neither the old nor the new snapshot**: if the previous
-    image restored a snapshot (LASTSAVE ≠ 0) and the new one records a time ≠ 0, the restore at steps
-    1–4 differs from both — the property's "either the complete new snapshot or the complete
-    previous one" fails at every one of these instants. -/
-theorem window_is_neither_old_nor_new (now : Int) (prev : SnapImage) (ms : Nat)
-    (ds : List (Nat × List (Bytes × Entry))) (ls : Int) (hn : NewName prev ms)
-    (step : Nat) (h1 : 1 ≤ step) (h4 : step ≤ 4)
-    (hp : (restoreSnap now prev).2 ≠ 0) (hl : ls ≠ 0) :
-    restoreSnap now (snapStep prev ms ds ls step) ≠ restoreSnap now prev ∧
-    restoreSnap now (snapStep prev ms ds ls step) ≠
-      (match restoreDataset now fresh ds with | none => (.panic, ls) | some s => (.ok s, ls)) := by
-  rw [manifest_window_loses_previous now prev ms ds ls hn step h1 h4]
-  constructor
-  · intro h
-    rw [← h] at hp
-    exact hp rfl
-  · intro h
-    cases hr : restoreDataset now fresh ds with
-    | none => rw [hr] at h; simp only [Prod.mk.injEq] at h; exact hl h.2.symm
-    | some s => rw [hr] at h; simp only [Prod.mk.injEq] at h; exact hl h.2.symm
+/-- **Snapshots are crash-atomic** — the full statement, for every previous image, every new
+    snapshot (name, dataset, time) and a crash after ANY number of file operations: a fresh server
+    restores either exactly what the previous image restored or the complete new snapshot; never a
+    mixture, never nothing where there was something. -/
+theorem snapshot_crash_atomic (now : Int) (prev : SnapImage) (ms : Nat)
+    (ds : List (Nat × List (Bytes × Entry))) (ls : Int) (step : Nat) (hn : NewName prev ms) :
+    restoreSnap now (snapStep prev ms ds ls step) = restoreSnap now prev ∨
+    restoreSnap now (snapStep prev ms ds ls step) = restoreSnap now (snapStep prev ms ds ls 5) := by
+  by_cases h : step ≤ 4
+  · exact Or.inl (crash_before_rename_restores_previous now prev ms ds ls hn step h)
+  · obtain ⟨n, rfl⟩ : ∃ n, step = n + 5 := ⟨step - 5, by omega⟩
+    exact Or.inr rfl
 
-/-- … although the previous snapshot's directory is intact at every step: nothing of it is removed
-    or rewritten, only the manifest no longer names it -/
+/-- **A failed attempt leaves the previous snapshot untouched**: an attempt that stops at any step
+    before the rename — the directory or the state file cannot be created or written, the temporary
+    manifest cannot be written — leaves a data directory from which exactly the previous snapshot is
+    restored. -/
+theorem failed_attempt_keeps_previous (now : Int) (prev : SnapImage) (ms : Nat)
+    (ds : List (Nat × List (Bytes × Entry))) (ls : Int) (hn : NewName prev ms) (stoppedAt : Nat) (h : stoppedAt ≤ 4) :
+    restoreSnap now (snapStep prev ms ds ls stoppedAt) = restoreSnap now prev :=
+  crash_before_rename_restores_previous now prev ms ds ls hn stoppedAt h
+
+/-- the previous snapshot's directory is intact at every step: nothing of it is removed or rewritten -/
 theorem previous_directory_intact (prev : SnapImage) (ms : Nat) (ds : List (Nat × List (Bytes × Entry)))
     (ls : Int) (step : Nat) (d : SnapDir) (hd : d ∈ prev.dirs) : d ∈ (snapStep prev ms ds ls step).dirs := by
   unfold snapStep
   split <;> simp [hd]
 
-/-- **Crash atomicity holds exactly outside the window**: at step 0 and from step 5 on, the restore
-    is that of the previous image or that of the complete new snapshot. -/
-theorem crash_atomic_outside_window_partial (now : Int) (prev : SnapImage) (ms : Nat)
-    (ds : List (Nat × List (Bytes × Entry))) (ls : Int) (hn : NewName prev ms) (step : Nat)
-    (h : step = 0 ∨ 5 ≤ step) :
-    restoreSnap now (snapStep prev ms ds ls step) = restoreSnap now prev ∨
-    restoreSnap now (snapStep prev ms ds ls step) =
-      (match restoreDataset now fresh ds with | none => (.panic, ls) | some s => (.ok s, ls)) := by
-  rcases h with h | h
-  · subst h; exact Or.inl rfl
-  · obtain ⟨n, rfl⟩ : ∃ n, step = n + 5 := ⟨step - 5, by omega⟩
-    exact Or.inr (crash_after_state_written_restores_new now prev ms ds ls n hn)
+/-- more generally, whatever an attempt leaves behind in new directories while the manifest is
+    untouched does not disturb a restorable previous snapshot -/
+theorem failed_attempt_before_manifest_keeps_previous (now : Int) (prev : SnapImage) (ms0 : Int) (extra : List SnapDir)
+    (hm : prev.manifest = some (some ms0))
+    (hx : (prev.dirs.find? fun d => (d.name : Int) == ms0).isSome = true) :
+    restoreSnap now { manifest := prev.manifest, dirs := prev.dirs ++ extra } = restoreSnap now prev := by
+  have : (prev.dirs ++ extra).find? (fun d => (d.name : Int) == ms0) = prev.dirs.find? (fun d => (d.name : Int) == ms0) := by
+    rw [List.find?_append]
+    cases hf : prev.dirs.find? (fun d => (d.name : Int) == ms0) with
+    | none => rw [hf] at hx; simp at hx
+    | some d => rfl
+  simp only [restoreSnap, hm, this]
 
-/-- **A failed attempt that got as far as the manifest leaves it dangling**: a manifest naming a
-    snapshot for which no directory holds a state file restores nothing, whatever complete snapshots
-    the other directories hold. -/
-theorem failed_attempt_dangling_manifest (now : Int) (dirs : List SnapDir) (ms : Nat)
+/-- a fact about `restoreSnap` alone (NOT reachable by the repaired step sequence, which publishes the
+    manifest only after the state file is complete): a manifest naming a snapshot for which no directory
+    holds a state file restores nothing, whatever complete snapshots the other directories hold -/
+theorem dangling_manifest_restores_nothing (now : Int) (dirs : List SnapDir) (ms : Nat)
     (h : ∀ d ∈ dirs, d.name = ms → d.state = none) :
     restoreSnap now { manifest := some (some ms), dirs := dirs } = (.ok fresh, 0) := by
   unfold restoreSnap
@@ -141,33 +167,26 @@ theorem failed_attempt_dangling_manifest (now : Int) (dirs : List SnapDir) (ms :
         exact h d hm hp
     simp only [this]
 
-/-- a failed attempt that stopped before touching the manifest leaves the previous snapshot
-    restorable as it was, whatever it created in a new directory -/
-theorem failed_attempt_before_manifest_keeps_previous (now : Int) (prev : SnapImage) (ms0 : Int) (extra : List SnapDir)
-    (hm : prev.manifest = some (some ms0))
-    (hx : (prev.dirs.find? fun d => (d.name : Int) == ms0).isSome = true) :
-    restoreSnap now { manifest := prev.manifest, dirs := prev.dirs ++ extra } = restoreSnap now prev := by
-  have : (prev.dirs ++ extra).find? (fun d => (d.name : Int) == ms0) = prev.dirs.find? (fun d => (d.name : Int) == ms0) := by
-    rw [List.find?_append]
-    cases hf : prev.dirs.find? (fun d => (d.name : Int) == ms0) with
-    | none => rw [hf] at hx; simp at hx
-    | some d => rfl
-  simp only [restoreSnap, hm, this]
-
 /-- the hypotheses are satisfiable: a previous image with one complete snapshot and a later name -/
 example : NewName { manifest := some (some 1000), dirs := [⟨1000, some (some ([], 1000))⟩] } 2000 :=
-  ⟨by decide, by intro d hd; simp only [List.mem_singleton] at hd; subst hd; decide⟩
+  ⟨by decide, by intro d hd; simp only [List.mem_singleton] at hd; subst hd; decide, by decide⟩
 
-/-- concrete witness: the previous snapshot (taken at 1000) holds k = v and is restorable; a crash
-    right after the manifest is rewritten for snapshot 2000 leaves a directory that restores nothing,
-    and so does a crash after the new directory and after the empty state file are created -/
-theorem manifest_window_loses_previous_witness :
+/-- … and on a data directory without any snapshot yet -/
+example : NewName { manifest := none, dirs := [] } 2000 :=
+  ⟨by decide, by intro d hd; simp at hd, by simp⟩
+
+/-- concrete witness, all six steps: the previous snapshot (taken at 1000) holds k = v; a crash after
+    each of the steps 0–4 restores k = v with LASTSAVE 1000, a crash after the rename restores the new
+    snapshot k = w with LASTSAVE 2000 (replaces the former witness that steps 1–4 restored nothing;
+    repaired upstream) -/
+theorem crash_atomic_witness :
     let prev : SnapImage := { manifest := some (some 1000), dirs := [⟨1000, some (some ([(0, [(b "k", ⟨.str (b "v"), none⟩)])], 1000))⟩] }
     let new : List (Nat × List (Bytes × Entry)) := [(0, [(b "k", ⟨.str (b "w"), none⟩)])]
     let served := fun (im : SnapImage) => match restoreSnap 3000 im with
       | (.ok s, ls) => ((s.lookup 0 (b "k")).map (·.val), ls) | _ => (none, -1)
     (List.range 6).map (fun n => served (snapStep prev 2000 new 2000 n)) =
-      [(some (.str (b "v")), 1000), (none, 0), (none, 0), (none, 0), (none, 0), (some (.str (b "w")), 2000)] := by
+      [(some (.str (b "v")), 1000), (some (.str (b "v")), 1000), (some (.str (b "v")), 1000),
+       (some (.str (b "v")), 1000), (some (.str (b "v")), 1000), (some (.str (b "w")), 2000)] := by
   decide +kernel
 
 end Sugar.Props.C10
